@@ -309,6 +309,7 @@ class Generated:
         self.functions = {}      # key -> info
         self.assumptions = []
         self.shape_changed = {}  # fn key -> notes (loop structure differs from the contract table)
+        self.keyed_loops = {}    # fn key -> ordinals of loops that were matched by their header text
 
     def text(self):
         return "\n".join(self.lines) + "\n"
@@ -423,6 +424,7 @@ def gen_fn(fn, g, probe_labels, unit_name):
                     g.shape_changed.setdefault(fn.key, []).append("no loop whose header contains %r" % key)
                 else:
                     resolved[found] = lp
+                    g.keyed_loops.setdefault(fn.key, set()).add(found)
             fn = _with_loops(fn, resolved)
             for k in sorted(fn.loops):
                 if k > len(offs):
@@ -441,6 +443,9 @@ def gen_fn(fn, g, probe_labels, unit_name):
                 if idx in fn.loops:
                     lp = fn.loops[idx]
                     edits.append((bpos, "\n/*@@LOOP %d@@*/\n" % idx, "before"))
+                    if getattr(lp, "before", None):
+                        edits.append((kwpos, lp.before + "\n", "before"))
+                        g.rewrites.append({"item": where, "rule": "R12", "loop": idx, "where": "before loop", "inserted": lp.before, "why": "ghost/proof text"})
                     if lp.body_start:
                         edits.append((bpos + 1, "\n" + lp.body_start + "\n", "before"))
                         g.rewrites.append({"item": where, "rule": "R12", "loop": idx, "where": "body start", "inserted": lp.body_start, "why": "ghost/proof text"})
